@@ -121,6 +121,9 @@ pub struct SddRun<'a, B: SddBuilder<'a>> {
     /// (replays of a recorded history must repeat the recorded operands: the search looks at how entries are
     /// represented, which may differ between two builders)
     pub forced_operands: Option<(usize, usize)>,
+    /// embedded: oracle variable i stands for builder label `labels[i]` (the vtree has more leaves than these);
+    /// otherwise a label is its own oracle variable
+    pub emb: bool,
 }
 
 impl<'a, B: SddBuilder<'a>> SddRun<'a, B> {
@@ -131,7 +134,35 @@ impl<'a, B: SddBuilder<'a>> SddRun<'a, B> {
         for v in sorted.iter() {
             pool.push((b.var(VarLabel::new_usize(*v), true), Tt::var(*v)));
         }
-        SddRun { b, pool, labels: sorted, forced_operands: None }
+        SddRun { b, pool, labels: sorted, forced_operands: None, emb: false }
+    }
+
+    /// the oracle's variables embedded in a builder over a larger vtree: oracle variable i is the i-th smallest of
+    /// `labels`; sets the walkers' label map
+    pub fn new_embedded(b: &'a B, labels: Vec<usize>) -> Self {
+        let mut sorted = labels;
+        sorted.sort_unstable();
+        sorted.dedup();
+        assert!(sorted.len() <= crate::tt::NV);
+        let mut map: Vec<Option<usize>> = vec![None; sorted.last().map(|m| m + 1).unwrap_or(0)];
+        for (i, l) in sorted.iter().enumerate() {
+            map[*l] = Some(i);
+        }
+        crate::walk::set_label_map(Some(map));
+        let mut pool = vec![(SddPtr::PtrTrue, Tt::TRUE), (SddPtr::PtrFalse, Tt::FALSE)];
+        for (i, l) in sorted.iter().enumerate() {
+            pool.push((b.var(VarLabel::new_usize(*l), true), Tt::var(i)));
+        }
+        SddRun { b, pool, labels: sorted, forced_operands: None, emb: true }
+    }
+
+    /// oracle variable of a usable label
+    pub fn o(&self, label: usize) -> usize {
+        if self.emb {
+            self.labels.binary_search(&label).expect("label outside the embedding")
+        } else {
+            label
+        }
     }
 
     fn at(&self, i: u16) -> usize {
@@ -146,7 +177,7 @@ impl<'a, B: SddBuilder<'a>> SddRun<'a, B> {
         let (ptr, tt, args): (SddPtr<'a>, Tt, Vec<usize>) = match op {
             SOp::Lit(v, p) => {
                 let v = self.v(*v);
-                (b.var(VarLabel::new_usize(v), *p), Tt::lit(v, *p), vec![])
+                (b.var(VarLabel::new_usize(v), *p), Tt::lit(self.o(v), *p), vec![])
             }
             SOp::Const(c) => (if *c { b.true_ptr() } else { b.false_ptr() }, Tt::constant(*c), vec![]),
             SOp::Not(a) => {
@@ -182,21 +213,21 @@ impl<'a, B: SddBuilder<'a>> SddRun<'a, B> {
                 let v = self.v(*v);
                 (
                     b.condition(self.pool[a].0, VarLabel::new_usize(v), *val),
-                    self.pool[a].1.cofactor(v, *val),
+                    self.pool[a].1.cofactor(self.o(v), *val),
                     vec![a],
                 )
             }
             SOp::Exists(a, v) => {
                 let a = self.at(*a);
                 let v = self.v(*v);
-                (b.exists(self.pool[a].0, VarLabel::new_usize(v)), self.pool[a].1.exists(v), vec![a])
+                (b.exists(self.pool[a].0, VarLabel::new_usize(v)), self.pool[a].1.exists(self.o(v)), vec![a])
             }
             SOp::Compose(f, v, g) => {
                 let (f, g) = (self.at(*f), self.at(*g));
                 let v = self.v(*v);
                 (
                     b.compose(self.pool[f].0, VarLabel::new_usize(v), self.pool[g].0),
-                    self.pool[f].1.compose(v, self.pool[g].1),
+                    self.pool[f].1.compose(self.o(v), self.pool[g].1),
                     vec![f, g],
                 )
             }
@@ -236,26 +267,40 @@ impl<'a, B: SddBuilder<'a>> SddRun<'a, B> {
                 let lits: Vec<Vec<rsdd::repr::Literal>> =
                     mapped.iter().map(|c| c.iter().map(|(v, p)| rsdd::repr::Literal::new(VarLabel::new_usize(*v), *p)).collect()).collect();
                 let cnf = rsdd::repr::Cnf::new(&lits);
-                let t = mapped.iter().fold(Tt::TRUE, |acc, c| acc.and(c.iter().fold(Tt::FALSE, |a, (v, p)| a.or(Tt::lit(*v, *p)))));
+                let t = mapped.iter().fold(Tt::TRUE, |acc, c| acc.and(c.iter().fold(Tt::FALSE, |a, (v, p)| a.or(Tt::lit(self.o(*v), *p)))));
                 (b.compile_cnf(&cnf), t, vec![])
             }
             SOp::Expr(e) => {
                 let labels = self.labels.clone();
                 let e2 = crate::textgen::rename(e, &|v| labels[v % labels.len()]);
-                (b.compile_logical_expr(&e2.to_logical()), e2.tt(), vec![])
+                let t = if self.emb { crate::textgen::rename(e, &|v| v % labels.len()).tt() } else { e2.tt() };
+                (b.compile_logical_expr(&e2.to_logical()), t, vec![])
             }
             SOp::Plan(pl) => {
                 let pl2 = rename_plan_labels(pl, &self.labels);
-                (b.compile_plan(&pl2.to_plan()), pl2.tt(), vec![])
+                let t = if self.emb {
+                    let idx: Vec<usize> = (0..self.labels.len()).collect();
+                    rename_plan_labels(pl, &idx).tt()
+                } else {
+                    pl2.tt()
+                };
+                (b.compile_plan(&pl2.to_plan()), t, vec![])
             }
             SOp::Dense(bits) => {
                 let mut t = Tt(*bits);
-                for v in 0..crate::tt::NV {
-                    if !self.labels.contains(&v) {
+                if self.emb {
+                    for v in self.labels.len()..crate::tt::NV {
                         t = t.cofactor(v, false);
                     }
+                    (crate::semi::sdd_from_tt_labels(b, t, &self.labels), t, vec![])
+                } else {
+                    for v in 0..crate::tt::NV {
+                        if !self.labels.contains(&v) {
+                            t = t.cofactor(v, false);
+                        }
+                    }
+                    (crate::semi::sdd_from_tt(b, t, crate::tt::NV), t, vec![])
                 }
-                (crate::semi::sdd_from_tt(b, t, crate::tt::NV), t, vec![])
             }
             SOp::Rebuild(a, keys) => {
                 let a = self.at(*a);
@@ -281,7 +326,8 @@ impl<'a, B: SddBuilder<'a>> SddRun<'a, B> {
                     }
                     let mut cube = b.true_ptr();
                     for i in ord.iter() {
-                        let lit = b.var(VarLabel::new_usize(sup[*i]), (m >> i) & 1 == 1);
+                        let lbl = if self.emb { self.labels[sup[*i]] } else { sup[*i] };
+                        let lit = b.var(VarLabel::new_usize(lbl), (m >> i) & 1 == 1);
                         cube = b.and(cube, lit);
                     }
                     acc = b.or(acc, cube);
